@@ -12,7 +12,8 @@ All theorems quantify over EVERY history of start / failing start / stop / delet
 since the third fix a start of an executing id is refused, in the code, the model and the spec), every default retention policy,
 every task id and from-node index; nothing is bounded.
 -/
-import Kap.Proofs.C02Closed
+import Kap.Proofs.C02Bounded
+import Kap.Gen.C02Cap
 namespace Kap.Props.C02
 open Kap.C02
 
@@ -88,6 +89,38 @@ registered is open. -/
 theorem never_sends_on_closed_edge (drp : String) (ops : List Op) :
     (run drp ops).sentOnClosed = false ∧ ∀ k id e, (id, e) ∈ (run drp ops).forks k → e ∉ (run drp ops).closed :=
   ⟨(run_invC drp ops).good, (run_invC drp ops).openE⟩
+
+/-! ### Bounded edges: the forking goroutine never blocks -/
+
+/-- The capacity of a task's input edge was recognised in the source (edge.go `defaultEdgeBufferSize` handed to
+`edge.NewChannelEdge`; regenerated on every run by extract/c02cap — an unrecognised shape makes this obligation fail). -/
+theorem edge_capacity_known : ∃ n, Gen.edgeCap = Gen.Cap.known n ∧ 0 < n := by
+  refine ⟨_, rfl, ?_⟩; decide
+
+/-- **`forkPoint` never waits on an edge nobody reads**: in every reachable state, every edge registered in the fork table is the
+input of the ExecutingTask stored under its id, i.e. it has a reader that drains it. -/
+theorem registered_edges_have_readers (drp : String) (ops : List Op) (k : Key) (id : String) (e : Edge)
+    (h : (id, e) ∈ (run drp ops).forks k) : hasReader (run drp ops) e = true := by
+  have := (run_inv drp ops).reader k (id, e) h
+  simp [hasReader, this]
+
+/-- **Progress / refinement**: whatever the capacity of the edges (even 0), on every history the model with bounded edges never
+reaches `blocked` and is, state for state, the unbounded model all other theorems are about. -/
+theorem bounded_edges_never_block (cap : Nat) (drp : String) (ops : List Op) :
+    runB cap drp ops = ⟨run drp ops, false⟩ :=
+  foldB_eq cap ops (init drp) (Inv.init drp)
+
+/-- Counterexample for the snapshot's failing `StartTask` (second defect), now in the bounded model, with capacity 2 for the kernel:
+task `t` runs, the start of `u` fails after `newFork`; the third point finds `u`'s orphaned edge full, the forking goroutine blocks,
+and `t` — whose own pipeline is perfectly healthy — gets 3 = cap+1 of 4 points (on the real code, capacity 1000: 1001 of 1500,
+corpus/C02/failed-start-blocks-ingestion.ops). -/
+theorem old_failed_start_blocks_every_task :
+    let ops : List Op := [.start ⟨"t", [("d", "r")], [{}]⟩, .startfail ⟨"u", [("d", "r")], [{}]⟩,
+                          .write "d" "r" [⟨1, "m", []⟩, ⟨2, "m", []⟩, ⟨3, "m", []⟩, ⟨4, "m", []⟩]]
+    let b := ops.foldl (stepBWith startTask startTaskFailOld 2) { tm := init "" }
+    b.blocked = true ∧ b.tm.delivered "t" 0 = [1, 2, 3] ∧ specDelivered "" "t" 0 ops = [1, 2, 3, 4] ∧
+    (runB 2 "" ops).blocked = false ∧ (runB 2 "" ops).tm.delivered "t" 0 = [1, 2, 3, 4] := by
+  decide
 
 /-! ### Routing -/
 
